@@ -81,8 +81,12 @@ func genOutside(rt *rapid.T, m *fsmodel.Model) *fsmodel.Op {
 	any := append(append([]string{}, files...), dirs...)
 	op := &fsmodel.Op{}
 	switch hx.Uniform(rt, 12, "ok") {
-	case 0: // copy onto an existing destination
+	case 0: // copy onto an existing destination (never onto itself: a self-copy can loop on disk)
 		op.Op, op.Path, op.Path2 = []string{"Copy", "CopyFile", "CopyDirectory"}[hx.Uniform(rt, 3, "ck")], pick(any, "s"), pick(any, "d")
+		if op.Path == op.Path2 {
+			op.Op, op.Path = "Remove", missing()
+			op.Path2 = ""
+		}
 	case 1: // missing source
 		op.Op, op.Path, op.Path2 = []string{"Copy", "CopyFile", "CopyDirectory"}[hx.Uniform(rt, 3, "ck")], missing(), "new1"
 	case 2: // destination parent missing
@@ -329,6 +333,13 @@ func run(c Case) hx.Verdict {
 		}
 		if op.Recv != 0 {
 			v.Label("via-child-view")
+		}
+	}
+	if c.Outside != nil && c.Outside.Path2 != "" {
+		r1, _ := fsmodel.Resolve(c.Outside.Path)
+		r2, _ := fsmodel.Resolve(c.Outside.Path2)
+		if strings.Join(r1, "/") == strings.Join(r2, "/") {
+			c.Outside = nil
 		}
 	}
 	if c.Outside != nil {
